@@ -26,6 +26,28 @@ def iecdfM? : String → Option IecdfMethod
 
 def out (l : List Rat) : String := showList showRat l
 
+/-! ### C16 correspondence helpers: value at the point and at the two neighbours `± d` (the harness accepts the
+    hull where the float code can sit on a discontinuity of the exact map) -/
+
+def clamp01 (q : Rat) : Rat := max 0 (min 1 q)
+
+def ecdf3 (m : EcdfMethod) (x : List Rat) (dv : Rat) (y : Rat) : List Rat :=
+  [ecdf1 m x (y - dv), ecdf1 m x y, ecdf1 m x (y + dv)]
+
+def iecdf3 (m : IecdfMethod) (s : List Rat) (dp : Rat) (q : Rat) : List Rat :=
+  [iecdfSorted m s (clamp01 (q - dp)), iecdfSorted m s q, iecdfSorted m s (clamp01 (q + dp))]
+
+/-- quantile map through an arbitrary ecdf `F` (step / linear / histogram): lo, mid, hi -/
+def qmap3 (F : Rat → Rat) (im : IecdfMethod) (sy : List Rat) (dv dp : Rat) (v : Rat) : List Rat :=
+  [iecdfSorted im sy (clamp01 (F (v - dv) - dp)), iecdfSorted im sy (F v), iecdfSorted im sy (clamp01 (F (v + dv) + dp))]
+
+def qmapx3 (F : Rat → Rat) (im : IecdfMethod) (x y : List Rat) (dv dp : Rat) (v : Rat) : List Rat :=
+  let xmin := minQ x
+  let xmax := maxQ x
+  if v > xmax then let r := v + (maxQ y - xmax); [r, r, r]
+  else if v < xmin then let r := v + (minQ y - xmin); [r, r, r]
+  else qmap3 F im (sortQ y) dv dp v
+
 def step (line : String) : String :=
   match line.splitOn " " with
   | ["sort", x] => match rats? x with
@@ -50,6 +72,32 @@ def step (line : String) : String :=
       | some xs, some xp, some fp => out (interp xs xp fp) | _, _, _ => "bad-op"
   | ["interplen", c, m] => match rats? c, m.toNat? with
       | some c, some m => out (interpOnLength c m) | _, _ => "bad-op"
+  | ["threshold", t, vs] => match parseRat? t, rats? vs with
+      | some t, some vs => out (vs.map (thresholdCdf t)) | _, _ => "bad-op"
+  | ["ecdf3", m, x, ys, dv] => match ecdfM? m, rats? x, rats? ys, parseRat? dv with
+      | some m, some x, some ys, some dv => out (ys.flatMap (ecdf3 m x dv)) | _, _, _, _ => "bad-op"
+  | ["iecdf3", m, x, qs, dp] => match iecdfM? m, rats? x, rats? qs, parseRat? dp with
+      | some m, some x, some qs, some dp => out (qs.flatMap (iecdf3 m (sortQ x) dp)) | _, _, _, _ => "bad-op"
+  | ["qmap3", em, im, x, y, v, dv, dp] =>
+      match ecdfM? em, iecdfM? im, rats? x, rats? y, rats? v, parseRat? dv, parseRat? dp with
+      | some em, some im, some x, some y, some v, some dv, some dp =>
+          out (v.flatMap (qmap3 (ecdf1 em x) im (sortQ y) dv dp))
+      | _, _, _, _, _, _, _ => "bad-op"
+  | ["qmapx3", em, im, x, y, v, dv, dp] =>
+      match ecdfM? em, iecdfM? im, rats? x, rats? y, rats? v, parseRat? dv, parseRat? dp with
+      | some em, some im, some x, some y, some v, some dv, some dp =>
+          out (v.flatMap (qmapx3 (ecdf1 em x) im x y dv dp))
+      | _, _, _, _, _, _, _ => "bad-op"
+  | ["qmaphist3", im, e, c, y, v, dp] =>
+      match iecdfM? im, rats? e, nats? c, rats? y, rats? v, parseRat? dp with
+      | some im, some e, some c, some y, some v, some dp =>
+          out (v.flatMap (qmap3 (ecdfHist1 e c) im (sortQ y) 0 dp))
+      | _, _, _, _, _, _ => "bad-op"
+  | ["qmapxhist3", im, e, c, x, y, v, dp] =>
+      match iecdfM? im, rats? e, nats? c, rats? x, rats? y, rats? v, parseRat? dp with
+      | some im, some e, some c, some x, some y, some v, some dp =>
+          out (v.flatMap (qmapx3 (ecdfHist1 e c) im x y 0 dp))
+      | _, _, _, _, _, _, _ => "bad-op"
   | _ => "bad-op"
 
 def main : IO Unit := do loop (← IO.getStdin) step
